@@ -104,7 +104,82 @@ func c12RandomCount(env *core.Env) int {
 }
 
 func c12NumCases(env *core.Env) int {
-	return (c12Total(env)+c12Batch-1)/c12Batch + c12RandomCount(env) + 2
+	return (c12Total(env)+c12Batch-1)/c12Batch + c12RandomCount(env) + 3
+}
+
+// c12Twins lists locations that differ from base in one component only (port, host, scheme, directory, file name).
+func c12Twins(base string) map[string]string {
+	out := map[string]string{}
+	u, _ := url.Parse(base)
+	mk := func(f func(v *url.URL)) string {
+		v := *u
+		f(&v)
+		return v.String()
+	}
+	if u.Scheme != "file" {
+		out["other-port"] = mk(func(v *url.URL) { v.Host = v.Hostname() + ":9090" })
+		out["other-host"] = mk(func(v *url.URL) {
+			if v.Port() != "" {
+				v.Host = "twin.example:" + v.Port()
+			} else {
+				v.Host = "twin.example"
+			}
+		})
+		out["other-scheme"] = mk(func(v *url.URL) { v.Scheme = map[string]string{"http": "https", "https": "http"}[v.Scheme] })
+	}
+	out["other-directory"] = mk(func(v *url.URL) {
+		i := strings.LastIndex(v.Path, "/")
+		v.Path, v.RawPath = v.Path[:i]+"/twin"+v.Path[i:], ""
+	})
+	out["other-file-name"] = mk(func(v *url.URL) { v.Path, v.RawPath = v.Path+"2", "" })
+	return out
+}
+
+// c12Containing: a fragment-only reference designates the document that contains it, also when that document was reached by a
+// reference from a document that differs from it in one URL component only and has a namesake of the target.
+func c12Containing(res *core.CaseResult, a, kind, b string) {
+	docA := fmt.Sprintf(`{"swagger":"2.0","info":{"title":"t","version":"1"},"paths":{},"definitions":{"entry":{"$ref":%q},"b":{"title":"b of the referring document"}}}`, b+"#/definitions/a")
+	docB := `{"definitions":{"a":{"$ref":"#/definitions/b"},"b":{"title":"b of the containing document"}}}`
+	var reqs []string
+	loader := func(u string) (json.RawMessage, error) {
+		reqs = append(reqs, u)
+		switch {
+		case oracle.SameURL(u, b):
+			return json.RawMessage(docB), nil
+		case oracle.SameURL(u, a):
+			return json.RawMessage(docA), nil
+		}
+		return nil, fmt.Errorf("no document at %s", u)
+	}
+	wit := map[string]interface{}{"referring_document": a, "containing_document": b, "differs_in": kind}
+	for _, entry := range []string{"ExpandSpec", "ExpandSchemaWithBasePath"} {
+		reqs = nil
+		var title string
+		var err error
+		var pan string
+		if entry == "ExpandSpec" {
+			sw := new(spec.Swagger)
+			_ = json.Unmarshal([]byte(docA), sw)
+			err, pan = guard(func() error { return spec.ExpandSpec(sw, &spec.ExpandOptions{RelativeBase: a, PathLoader: loader}) })
+			title = sw.Definitions["entry"].Title
+		} else {
+			// through a first hop into the referring document, from a third location
+			s := spec.RefSchema(a + "#/definitions/entry")
+			err, pan = guard(func() error {
+				return spec.ExpandSchemaWithBasePath(s, nil, &spec.ExpandOptions{RelativeBase: "file:///c12/start.json", PathLoader: loader})
+			})
+			title = s.Title
+		}
+		res.Evals++
+		res.Count("containing-document."+kind, 1)
+		wit["entry"], wit["requests"] = entry, append([]string{}, reqs...)
+		switch {
+		case pan != "" || err != nil:
+			res.Violate("containing-document: "+entry+" fails ("+kind+")", fmt.Sprintf("%v %s", err, pan), wit)
+		case title != "b of the containing document":
+			res.Violate("fragment-only reference read in another document than the one that contains it ("+kind+")", fmt.Sprintf("%s: \"#/definitions/b\" written in %s resolved to %q", entry, b, title), wit)
+		}
+	}
 }
 
 func c12Check(res *core.CaseResult, base, ref string) {
@@ -222,6 +297,24 @@ func c12Run(env *core.Env, idx int) core.CaseResult {
 			}
 		}
 		res.Count("part.tail-of-base", len(pairs))
+	case idx == nEnum+2:
+		// fragment-only references inside a document reached from a near-twin location
+		n := 0
+		for _, a := range c12BasesT {
+			if strings.Contains(a, "/../") {
+				continue // documents are served under their canonical location
+			}
+			tw := c12Twins(a)
+			for _, kind := range []string{"other-port", "other-host", "other-scheme", "other-directory", "other-file-name"} {
+				if b, ok := tw[kind]; ok {
+					c12Containing(&res, a, kind, b)
+					c12Containing(&res, b, kind, a)
+					n++
+				}
+			}
+		}
+		res.Count("part.containing-document-after-a-hop", n)
+		res.Count("nontrivial", 1)
 	default:
 		rng := core.Rng(env.Seed, "C12", idx)
 		bases := c12BasesT
@@ -265,11 +358,12 @@ func init() {
 		Rule: "every reference of <= 3 (thorough: 4) path segments over a 10-symbol alphabet (plain, dotted, '.', '..', percent-escaped, non-ASCII, upper-case, '+', '~'), last segment a file name, written relative, root-relative or absolute (2 hosts), " +
 			"with 3 fragment shapes, against 7 (thorough: 14) file/http/https bases at depth 0-3 - enumerated completely - plus fragment-only/empty references, references spelled with the trailing segments of the base, and seeded random longer ones; case = batch of 64 pairs. " +
 			"monitor: the recording loader of ResolveRefWithBase(nil, ref, {RelativeBase: base}) is asked exactly once, for net/url's RFC 3986 resolution of ref against base without fragment; normalizeURI (hook H5) agrees, fragment carried over. " +
+			"plus: a document A that refers into a near twin B of its own location (other port, host, scheme, directory or file name) whose target is a fragment-only $ref with a namesake in A - through ExpandSpec and through a first hop from a third location - must read it in B. " +
 			"non-trivial = batch has a dot segment, escape or non-ASCII reference",
 		NumCases: c12NumCases,
 		Run:      c12Run,
 		Floors: func(env *core.Env) []string {
-			return []string{"part.enumerated", "part.fragment-only", "part.tail-of-base", "part.random", "kind.relative", "kind.root-relative", "kind.absolute", "kind.fragment-only-or-empty", "nontrivial"}
+			return []string{"part.enumerated", "part.fragment-only", "part.tail-of-base", "part.containing-document-after-a-hop", "part.random", "kind.relative", "kind.root-relative", "kind.absolute", "kind.fragment-only-or-empty", "nontrivial"}
 		},
 		Exhaustive: func(env *core.Env) bool { return true },
 		Assumptions: []string{"domain: references made of a file path whose last segment is a file name, optional fragment; no query, no network-path (//host) reference, no %2F, no trailing '/', '.' or '..'",
